@@ -40,6 +40,9 @@ def gen_cases(tier, seed):
     # two device objects of one process, used alternately by one thread: the same stream ids are live on both
     for i in range(60 if tier == "quick" else 1200):
         yield {"kind": "twodev", "seed": "%d:td%d" % (seed, i), "impl": ("sync", "async")[i % 2]}
+    # a generator of the connection BEFORE a close() + connect() is advanced again in the middle of the new connection's streams: it gets nothing of theirs
+    for i in range(40 if tier == "quick" else 800):
+        yield {"kind": "stalegen", "seed": "%d:sg%d" % (seed, i), "impl": ("sync", "async")[i % 2]}
     # a device that writes far ahead of the acknowledgements: a long run of one stream's chunks is read (and parked) by another command's reader
     for i, b in enumerate([1100, 1500, 40, 2500] if tier == "quick" else [1100, 1500, 40, 2500, 5000, 1024, 1025, 1026, 3000, 10000]):
         for impl in ("sync", "async"):
@@ -254,6 +257,80 @@ def run_twodev(case):
             se.dispose()
 
 
+def run_stalegen(case):
+    """streaming_shell generators left over from the connection before a close() + connect() are advanced again while generators of the new connection
+    are being consumed (the device numbers its streams from the start again). The old streams are gone: their generators may raise or end, but they never
+    yield anything, and the new generators yield exactly their own chunks."""
+    from vlib import vclock
+    impl = case["impl"]
+    rng = gen.rng_for("C01sg", case["seed"])
+    dims = gen.common_dims(rng)
+    dims["noise"] = []
+    dims["remote"] = rng.choice(["small", "same", "reuse"])
+    dims["id_start"] = rng.choice([0, 0, 5])
+    dims["pace"] = 0.0
+    sess = gen.make_session(impl, dims, case["seed"])
+    stats = {"bytes_compared": 0, "chunks": 0, "stale_generators_advanced": 0}
+    viol = []
+    where = "%s, remote ids %s, id start %d" % (impl, dims["remote"], dims["id_start"])
+    try:
+        vclock.install(sess.clock)
+
+        def mk(name, n):
+            chunks = [("%s-%d:" % (name, k)).encode() + bytes(rng.getrandbits(8) for _ in range(rng.choice([0, 3, 30]))) for k in range(n)]
+            sess.sim.scripts[b"shell:" + name.encode()] = list(chunks)
+            return chunks, sess.dev.streaming_shell(name, decode=False, read_timeout_s=1.0, transport_timeout_s=0.5)
+
+        def nxt(g):
+            if impl == "sync":
+                return next(g)
+            return sess.loop.run_until_complete(g.__anext__())
+        nold = rng.choice([1, 2])
+        old = [mk("old%d" % i, 4) for i in range(nold)]
+        got_old = []
+        for (chunks, g) in old:
+            got_old.append([nxt(g) for _ in range(rng.choice([1, 2]))])
+        if rng.random() < 0.7:
+            o = sess.call("close")
+        o = sess.call("connect")
+        if not o.ok:
+            raise RuntimeError("harness: reconnect failed: %r" % (o,))
+        vclock.install(sess.clock)
+        new = [mk("new%d" % i, 5) for i in range(rng.choice([1, 2]))]
+        got_new = [[] for _ in new]
+        for k, (chunks, g) in enumerate(new):
+            got_new[k].append(nxt(g))
+        # now the old generators are advanced again
+        for i, (chunks, g) in enumerate(old):
+            stats["stale_generators_advanced"] += 1
+            try:
+                item = nxt(g)
+                viol.append({"mechanism": "stale-generator-yielded", "detail": "%s: a generator of the connection before close()/connect() yielded %r after the re-connect (its device stream is gone; the new streams wrote %r)" % (
+                    where, bytes(item)[:24] if isinstance(item, (bytes, bytearray)) else item, [c[0][:8] for (c, _) in new])})
+            except (StopIteration, StopAsyncIteration):
+                pass
+            except Exception:  # noqa  (a timeout, a connection error: its stream no longer exists)
+                pass
+        for k, (chunks, g) in enumerate(new):
+            try:
+                while True:
+                    got_new[k].append(nxt(g))
+            except (StopIteration, StopAsyncIteration):
+                pass
+            except Exception as e:  # noqa
+                viol.append({"mechanism": "stale-generator-disturbed:%s" % type(e).__name__, "detail": "%s: a generator of the NEW connection raised %s: %s after %d of %d chunks (an old generator had been advanced meanwhile)" % (
+                    where, type(e).__name__, str(e)[:80], len(got_new[k]), len(chunks))})
+                continue
+            if got_new[k] != chunks:
+                viol.append({"mechanism": "stale-generator-disturbed:wrong-output", "detail": "%s: a generator of the new connection yielded %r, its stream wrote %r" % (where, got_new[k][:3], chunks[:3])})
+            else:
+                stats["bytes_compared"] += sum(len(c) for c in chunks)
+            stats["chunks"] += len(chunks)
+        return {"sig": "sg|%s|%s|%d|%d" % (impl, dims["remote"], nold, len(new)), "violations": viol[:3], "stats": stats, "sample": {"case": case, "where": where} if case["seed"].endswith("sg3") else None}
+    finally:
+        sess.dispose()
+
+
 def run_burst(case):
     """streaming_shell generator A is started, then shell B runs while the device pours `burst` chunks of A onto the wire: B's reader parks them all; A must still yield every chunk in order"""
     from vlib import vclock
@@ -420,6 +497,8 @@ def run_case(case):
         return run_late(case)
     if case["kind"] == "twodev":
         return run_twodev(case)
+    if case["kind"] == "stalegen":
+        return run_stalegen(case)
     if case["kind"] == "burst":
         return run_burst(case)
     if case["kind"] == "straddle":
